@@ -55,6 +55,8 @@ def ev(n, env, res):
         if n['name'].startswith('\\hspace') and n['len'].startswith('\\'):
             note_unknown(res, n['len'])     # \hspace inspects its argument: \fill is an undeclared macro used in text
         return []
+    if t == 'symbol' and n.get('tailword'):
+        return [(n['tailword'], 'copy')]
     if t in ('ws', 'par', 'special', 'symbol', 'accent', 'verb', 'linebreak', 'verbatim',
              'selectlanguage', 'usepackage', 'rawword', 'gls', 'param'):
         return []
